@@ -525,10 +525,8 @@ func (e *Engine) strToBytes(st *State, s string, to types.Type) Val {
 	name := memName(types.Typ[types.Uint8], "")
 	sortM := "(Array Int (Array Int Int))"
 	m := e.heapTerm(st, name, sortM)
-	a := e.ctx.Declare("bytes", "(Array Int Int)")
 	ln := sx("gs.len", s)
-	e.ctx.Assume(fmt.Sprintf("(forall ((i Int)) (! (=> (and (<= 0 i) (< i %s)) (= (select %s i) (gs.at %s i))) :pattern ((select %s i))))", ln, a, s, a))
-	e.heapSet(st, name, sortM, r, sx("store", m, r, a))
+	e.heapSet(st, name, sortM, r, sx("store", m, r, sx("gs.arr", s)))
 	return Val{K: KSlice, Typ: to, Fs: []Val{intv(r), intv("0"), intv(ln), intv(ln)}}
 }
 
